@@ -15,8 +15,10 @@ set_option maxRecDepth 100000
 theorem variable_is_error (env : XPath.Env) (q : QN) (c : Ctx) : eval env (.var q) c = .error .unsupported := by
   simp [eval]
 
-/-- id() is reported as an error, whatever its argument evaluates to -/
-theorem id_is_error (env : XPath.Env) (c : Ctx) (vs : List Value) : applyFunc env c "id" vs = .error .unsupported := rfl
+/-- id() is reported as an error when the document has a DOCTYPE (the only case in which it could select
+    anything), and is the empty node-set otherwise — whatever its argument evaluates to -/
+theorem id_is_error_or_empty (env : XPath.Env) (c : Ctx) (vs : List Value) :
+    applyFunc env c "id" vs = (if env.doc.hasDoctype then .error .unsupported else .ok (.nodes [])) := rfl
 
 /-- a call of a function that is not in the core library is an error, not a crash -/
 theorem unknown_function_is_error (env : XPath.Env) (c : Ctx) (name : Str) (args : List Expr)
@@ -36,8 +38,12 @@ theorem arity_is_checked (env : XPath.Env) (c : Ctx) (name : Str) (args : List E
 
 /-- a name test with a prefix the caller has not bound is an error -/
 theorem unbound_prefix_is_error (env : XPath.Env) (a : Axis) (p l : Str) (k : Key)
-    (h : bindingOf env (some p) = none) : nodeTest env a (.name ⟨some p, l⟩) k = .error .nons := by
-  simp [nodeTest, h]
+    (h : bindingOf env (some p) = none) :
+    nodeTest env a (.nsAny p) k = .error .nons ∧
+    (kindOf env.doc k = principal a → nodeTest env a (.name ⟨some p, l⟩) k = .error .nons) := by
+  constructor
+  · simp [nodeTest, h]
+  · intro hk; simp [nodeTest, h, hk]
 
 /-- the parent of the root: the empty node-set -/
 theorem parent_of_root_empty (d : XDoc) : axisKeys d .parent [] = [] := rfl
